@@ -155,7 +155,8 @@ Proof.
   - apply NoDup_aset. apply (w_hnd s HW).
   - intros f y Hy Hly. destruct (w_fh s HW f y Hy Hly) as [z [Hz Hlz]]. rewrite aget_aset.
     destruct (N.eqb_spec (f_h y) h) as [E|]; [|eauto].
-    exists (set_closed true x). split; [reflexivity | exact Hl].
+    exists (set_closed true x). split; [reflexivity|].
+    rewrite E in Hz. rewrite Hg in Hz. inversion Hz; subst z. exact Hlz.
   - rewrite (w_freed s HW). f_equal. unfold any_live. symmetry.
     apply existsb_aset with x; [apply (w_hnd s HW) | exact Hg | reflexivity].
   - intros T. destruct (k_cnt s HK T) as [A B]. destruct (Hcnt T) as [C D].
@@ -928,7 +929,7 @@ Qed.
 (** ** creating a future *)
 Lemma InvW_newF f x s :
   InvW s -> getF f s = None -> f_reg x = false ->
-  (f_live x = true -> exists h, getH (f_h x) s = Some h /\ h_live h = true) ->
+  (f_live x = true -> exists h, getH (f_h x) s = Some h /\ hok (f_recv x) h) ->
   InvW (setF f x s).
 Proof.
   intros HW Hn Hr Hh.
@@ -944,7 +945,7 @@ Proof.
   - intros f1 y Hy Hrg. change (getF f1 (setF f x s) = Some y) in Hy. getF_cases Hy; [congruence|]. eapply w_reg; eauto.
   - intros f1 y Hy Hrg Hwy. change (getF f1 (setF f x s) = Some y) in Hy. getF_cases Hy; [congruence|]. eapply w_wq; eauto.
   - intros f1 y Hy Hl. change (getF f1 (setF f x s) = Some y) in Hy.
-    change (exists h, getH (f_h y) s = Some h /\ h_live h = true). getF_cases Hy; [auto|]. eapply w_fh; eauto.
+    change (exists h, getH (f_h y) s = Some h /\ hok (f_recv y) h). getF_cases Hy; [auto|]. eapply w_fh; eauto.
   - intros Hsc f1 w1 y Hi Hy. change (getF f1 (setF f x s) = Some y) in Hy.
     destruct (w_arq_k f1 w1 Hi) as [z [Hz _]]. getF_cases Hy; [congruence|]. eapply w_sc0; eauto.
   - intros Hrc f1 w1 y Hi Hy. change (getF f1 (setF f x s) = Some y) in Hy.
@@ -973,7 +974,8 @@ Proof.
   intros H0. apply Inv_reset in H0. unfold step. fold (reset s). set (s1 := reset s) in *. clearbody s1.
   destruct (getH h s1) as [x|] eqn:Hg; [|exact H0].
   destruct (h_live x) eqn:Hl; cbn [negb]; [|exact H0].
-  destruct (negb (h_tx x && h_async x)); [exact H0|].
+  destruct (h_tx x && h_async x) eqn:Eta; cbn [negb]; [|exact H0].
+  apply andb_prop in Eta. destruct Eta as [Etx Easy].
   destruct (getF f s1) eqn:Hf; [exact H0|].
   destruct (InvH_fresh s1 H0) as [[HD [HW HK]] Ev]. unfold fresh in *. cbn [fst snd ret] in *.
   set (s2 := with_next (next s1 + 1) s1) in *.
@@ -989,7 +991,7 @@ Proof.
     change (next (setF f xn s2)) with (next s2).
     destruct (u =? next s1); cbn [b2n]; lia.
   - apply InvW_newF; try assumption; try reflexivity.
-    intros _. exists x. split; [exact Hg | exact Hl].
+    intros _. exists x. split; [exact Hg|]. unfold hok. cbn. rewrite Etx. auto.
   - apply InvK_newF; [exact HK | exact Hf | reflexivity].
 Qed.
 
@@ -998,7 +1000,8 @@ Proof.
   intros H0. apply Inv_reset in H0. unfold step. fold (reset s). set (s1 := reset s) in *. clearbody s1.
   destruct (getH h s1) as [x|] eqn:Hg; [|exact H0].
   destruct (h_live x) eqn:Hl; cbn [negb]; [|exact H0].
-  destruct (negb (negb (h_tx x) && h_async x)); [exact H0|].
+  destruct (negb (h_tx x) && h_async x) eqn:Eta; cbn [negb]; [|exact H0].
+  apply andb_prop in Eta. destruct Eta as [Etx Easy]. apply negb_true_iff in Etx.
   destruct (getF f s1) eqn:Hf; [exact H0|].
   cbn [ret fst]. destruct H0 as [HD [HW HK]].
   set (xn := mkF true h None Waiting false true false).
@@ -1012,7 +1015,7 @@ Proof.
     change (back (setF f xn s1)) with (back s1). change (dropped (setF f xn s1)) with (dropped s1).
     change (next (setF f xn s1)) with (next s1). cbn [occ] in *. clear - C. lia.
   - apply InvW_newF; try assumption; try reflexivity.
-    intros _. exists x. split; [exact Hg | exact Hl].
+    intros _. exists x. split; [exact Hg|]. unfold hok. cbn. rewrite Etx. auto.
   - apply InvK_newF; [exact HK | exact Hf | reflexivity].
 Qed.
 
